@@ -134,7 +134,16 @@ func (z *Decimal) scan(r io.ByteScanner, base int) (f *Decimal, b int, err error
 	// // apply 2**exp2
 	p := new(Decimal).SetPrec(z.Prec() + _DW) // use more bits for p -- TODO(db47h) what is the right number?
 	if exp2 < 0 {
-		z.Quo(z, p.pow2(uint64(-exp2)))
+		// mant / 2**n can only be representable in z.prec digits if the
+		// mantissa cancels most of 2**n, which bounds n by the size of the
+		// mantissa. In that range divide by the exact power of two: a
+		// rounded divisor would make a representable quotient inexact.
+		n := uint64(-exp2)
+		if d := n*30103/100000 + 2; d > uint64(p.prec) && d <= MaxPrec &&
+			n <= uint64(len(z.mant))*_W+4*uint64(z.prec)+_W {
+			p.SetPrec(uint(d))
+		}
+		z.Quo(z, p.pow2(n))
 	} else {
 		z.Mul(z, p.pow2(uint64(exp2)))
 	}
